@@ -351,31 +351,91 @@ func ruleR10() *Rule {
 					}
 					okc := true
 					var why []string
-					sawReset := false
+					// path-sensitive: on every path to the Put, each error-returning
+					// step of package zap that ran has been found nil (directly, or
+					// through a boolean that holds the conjunction), and reset() ran
+					type step struct {
+						call   *ssa.Call
+						errv   ssa.Value
+						name   string
+						reset  bool
+						called uint64
+						isNil  uint64
+					}
+					var steps []*step
 					for _, cs2 := range callSites(nwcm) {
 						call, ok := cs2.(*ssa.Call)
 						if !ok || errorResultIndex(call.Call.Signature()) < 0 {
 							continue
 						}
 						callee := staticCallee(cs2)
-						if callee == nil || !p.InZap(callee) {
+						if callee == nil || !p.InZap(callee) || len(steps) >= 30 {
 							continue
 						}
-						if !(call.Block() == cs.Block() || call.Block().Dominates(cs.Block())) {
-							continue
+						k := uint(len(steps))
+						steps = append(steps, &step{call: call, errv: errValueOfCall(cs2), name: callee.Name(), reset: namedFn(callee, "interim.reset"),
+							called: 1 << (2 * k), isNil: 1 << (2*k + 1)})
+					}
+					condTr := func(cond ssa.Value, outcome bool, ev uint64, _ func(ssa.Value) ssa.Value) uint64 {
+						bo, ok := cond.(*ssa.BinOp)
+						if !ok || (bo.Op != token.EQL && bo.Op != token.NEQ) {
+							return ev
 						}
-						ev := errValueOfCall(cs2)
-						if namedFn(callee, "interim.reset") {
-							sawReset = true
+						var other ssa.Value
+						switch {
+						case isNilConst(bo.Y):
+							other = bo.X
+						case isNilConst(bo.X):
+							other = bo.Y
+						default:
+							return ev
 						}
-						if ev == nil || nilnessAt(ev, cs.Block()) != isNil {
-							okc = false
-							why = append(why, "error of "+callee.Name()+" is not known to be nil where the builder is returned to the pool")
+						for _, st := range steps {
+							if st.errv != nil && sameValue(other, st.errv) {
+								if (bo.Op == token.EQL) == outcome {
+									ev |= st.isNil
+								} else {
+									ev &^= st.isNil
+								}
+							}
+						}
+						return ev
+					}
+					ppa := newPathAnalysis(nwcm, func(in ssa.Instruction, ev uint64, _ bool) []uint64 {
+						for _, st := range steps {
+							if ssa.Instruction(st.call) == in {
+								return []uint64{(ev | st.called) &^ st.isNil}
+							}
+						}
+						return nil
+					})
+					ppa.condTr = condTr
+					ppa.edgeTr = func(pred *ssa.BasicBlock, succIdx int, ev uint64) uint64 {
+						if iff, ok := pred.Instrs[len(pred.Instrs)-1].(*ssa.If); ok && len(pred.Succs) == 2 {
+							return condTr(iff.Cond, succIdx == 0, ev, nil)
+						}
+						return ev
+					}
+					ppa.run(0)
+					sawReset := len(ppa.statesBefore(cs)) > 0
+					for _, ev := range ppa.statesBefore(cs) {
+						resetRan := false
+						for _, st := range steps {
+							if ev&st.called != 0 && ev&st.isNil == 0 {
+								okc = false
+								why = append(why, "error of "+st.name+" is not known to be nil where the builder is returned to the pool")
+							}
+							if st.reset && ev&st.called != 0 {
+								resetRan = true
+							}
+						}
+						if !resetRan {
+							sawReset = false
 						}
 					}
 					if !sawReset {
 						okc = false
-						why = append(why, "no reset() dominates the Put")
+						why = append(why, "no reset() precedes the Put on some path")
 					}
 					c.check(okc, "put-after-successful-reset", c.pos(cs), "the builder goes back to the pool only after convert, InitSegmentBase and reset all succeeded", strings.Join(uniq(why), "; "))
 				}
